@@ -24,7 +24,7 @@ def run(ctx):
     ctx.validate("WireTrace", t1, wirefam.keyfn, describe=wirefam.describe, only=["Inv_C02_", "Unconsumable"],
                  timeout=3000, require_events=2 * len(stims))
     t2 = ctx.path("gen.ndjson")
-    ctx.driver(drv, ["-out", t2, "-gen", 1500 if ctx.quick else 20000, "-big", 8 if ctx.quick else 60])
+    ctx.driver(drv, ["-out", t2, "-gen", 1500 if ctx.quick else 20000, "-big", 30 if ctx.quick else 120])
     ctx.validate("WireTrace", t2, wirefam.keyfn, describe=wirefam.describe, only=["Inv_C02_", "Unconsumable"],
                  timeout=3000, require_events=1500)
     ctx.extra["tlc_messages_replayed"] = len(stims)
